@@ -9,7 +9,12 @@
 (*                NOMINAL time of the next step, whatever the lateness so far                          *)
 (*   S[sh].own    <<light, priority, start_time, colour, dest_time>> of the light stack entries with   *)
 (*                the show's context key (colour -2: the fade-out entry left by a removal)             *)
+(*   S[sh].live   the RunningShow of the slot exists and is not stopped                                *)
 (*   lg[l]        logical colour of light l;   co  the coil is enabled                                *)
+(* Slots that repeat the request of another slot (same) post the same events: what the event bus      *)
+(* shows is recorded under the original slot and compared with what the whole group does; sched, own  *)
+(* and live are per instance.  A play request that returned an instance that existed before created  *)
+(* none: its slot has no RunningShow (live = FALSE, no timer, no entries).                            *)
 (*   ref[sh][l]   colour of light l in the differential run of the same schedule without slot sh;      *)
 (*   refco[sh]    coil state in that run                                                               *)
 EXTENDS Shows, TraceIO
@@ -28,11 +33,23 @@ OwnSet(sh) == UNION {{<<x, e.prio, e.st, e.col, e.until>> : e \in {f \in lights[
 OwnOf(sh) == OwnSet(sh)
 \* slots that share no show_player key with another slot: removing their Play changes nothing else
 Alone(sh) == \A x \in Slots \ {sh} : C(x).key # C(sh).key
+\* the slots that are one and the same request
+Group(sh) == {x \in Slots : Root(x) = sh}
+RECURSIVE Cat(_, _, _)
+Cat(F, G, i) == IF i > Len(F) THEN <<>> ELSE (IF i \in G THEN F[i] ELSE <<>>) \o Cat(F, G, i + 1)
+BagEq(q, r) == Len(q) = Len(r) /\ \A i \in DOMAIN q : Count(q, q[i]) = Count(r, q[i])
+\* a request that names no played / stopped events shows the other kinds only
+Seen(sh) == IF C(sh).quiet THEN Kinds \ {"played", "stopped"} ELSE Kinds
 Obs(e) ==
     /\ \A sh \in Slots :
-          /\ Proj(out'[sh].steps) = e.S[sh].steps                           \* OnSchedule / ControlSemantics
-          /\ Cnt(out'[sh].ev) = Cnt(e.S[sh].ev)                             \* EventsOnce
+          \* OnSchedule / ControlSemantics / EventsOnce: the steps and events on the bus
+          /\ IF Group(sh) = {sh}
+             THEN /\ Proj(out'[sh].steps) = e.S[sh].steps
+                  /\ \A k \in Seen(sh) : Count(out'[sh].ev, k) = Count(e.S[sh].ev, k)
+             ELSE /\ BagEq(Cat([x \in Slots |-> Proj(out'[x].steps)], Group(sh), 1), e.S[sh].steps)
+                  /\ \A k \in Seen(sh) : Count(Cat([x \in Slots |-> out'[x].ev], Group(sh), 1), k) = Count(e.S[sh].ev, k)
           /\ Sched(st'[sh]) = e.S[sh].sched                                 \* OnSchedule (no drift)
+          /\ (st'[sh].ph \in {"wait", "run"}) = e.S[sh].live                \* sync / replacement / stop
           /\ OwnOf(sh)' = SeqToSet(e.S[sh].own)                             \* CleanAfterStop / start_time of effects
           \* "as if it had never run": once the show is over the devices equal those of the run without it
           /\ (Alone(sh) /\ st'[sh].ph \in {"none", "done"} /\ Owned(sh)' = {} /\ \A x \in Lights : AtRest(x)')
